@@ -10,6 +10,7 @@
 #include "Archive/ClmFile.h"
 #include "Map/Map.h"
 #include "Stream/DynamicMemoryWriter.h"
+#include <array>
 #include <memory>
 #include <set>
 #include <functional>
@@ -226,6 +227,23 @@ void framesModulo(Ctx& ctx)
 		std::string key = "frame with " + std::to_string(len) + " layers and 7-bit count " + std::to_string(count) + " (equal modulo " + std::to_string(add) + ")";
 		ctx.count("frames/mismatch-modulo-field-width");
 		if (o.cls == 'R') ctx.violation("C20/frames/accepted-layer-list-disagreeing-with-count", key, "");
+	}
+	// several frames whose mismatches cancel in the totals (a check of the sums alone would pass): each frame is judged alone
+	{
+		std::vector<int> z2(prtc::kDims, 0); z2[5] = 2;   // two frames in the animation
+		ArtFile two = prtc::readArt(ref::encodePrt(prtc::makePrt(z2)));
+		if (two.animations.empty() || two.animations[0].frames.size() < 2) { ctx.violation("harness/two-frame-structure", "makePrt", ""); }
+		else for (auto pr : std::vector<std::array<int, 4>>{ { 1, 3, 3, 1 }, { 0, 2, 2, 0 }, { 3, 130, 127, 0 }, { 2, 1, 1, 2 }, { 5, 4, 4, 5 } }) {
+			ArtFile a = two;
+			auto& f0 = a.animations[0].frames[0]; auto& f1 = a.animations[0].frames[1];
+			f0.layerMetadata.count = uint8_t(pr[0]); f0.layers.assign(std::size_t(pr[1]), Animation::Frame::Layer{ 7, 1, 2, { 3, 4 } });
+			f1.layerMetadata.count = uint8_t(pr[2]); f1.layers.assign(std::size_t(pr[3]), Animation::Frame::Layer{ 7, 1, 2, { 3, 4 } });
+			auto o = mc::guarded([&] { prtc::writeArt(a); });
+			ctx.transition();
+			std::string key = "two frames: count " + std::to_string(pr[0]) + " with " + std::to_string(pr[1]) + " layers, count " + std::to_string(pr[2]) + " with " + std::to_string(pr[3]) + " layers (the sums agree)";
+			ctx.count("frames/mismatches-cancelling-in-the-totals");
+			if (o.cls == 'R') ctx.violation("C20/frames/accepted-layer-list-disagreeing-with-count", key, "");
+		}
 	}
 	ctx.state(); ctx.trace();
 }
